@@ -43,7 +43,7 @@ CLAIMS = {
          "transfer-fee intermediate mints are not part of the equality claim (the two-hop moves vault to vault)", "4 C17"),
  "C18": ("TLC model-checks the position life-cycle state machine (LifecycleModel) and generates behaviours; the harness replays them into the real program and probes every operation in "
          "every state; TLC validates each recorded instruction against the C18 predicates of the specification evaluated on the logged state (open / close / reset / reposition / lock / "
-         "transfer-locked / bundle bitmap / token supply one / no mint authority / locked untouchable)", "the 256 bundle indexes are covered by seeded sampling across shards, not swept one by one", "4 C18"),
+         "transfer-locked / bundle bitmap / token supply one / no mint authority / locked untouchable)", "quick samples 48 of the 256 bundle indexes, thorough opens / re-opens / closes every one of them", "4 C18"),
  "C19": ("TLC generates the mint-shape cases (MintAdmissionModel) and the harness replays them through the real initialise instructions; TLC validates ok => Admitted and evaluates the "
          "ParamsInBounds invariant of the specification on every projected state (mint admission runs, setter-bound probes, random histories incl. adaptive-fee pools)",
          "quick samples 2800 of the 85550 mint cases; thorough replays all of them; extension bodies are zero-filled with the right lengths (the admission rule reads types, freeze authority and default state only)", "4 C19"),
